@@ -19,7 +19,7 @@ def showTy : Ty → String
   | .agg k b => kindLetter k ++ showTy b
 
 def parseTyChars : List Char → Option Ty
-  | [d] => if d.isDigit && d.toNat - '0'.toNat < 8 then some (.simple (d.toNat - '0'.toNat)) else none
+  | [d] => if d.isDigit && d.toNat - '0'.toNat < 9 then some (.simple (d.toNat - '0'.toNat)) else none
   | 's' :: rest => (String.ofList rest).toNat?.bind (fun m => if m < 256 then some (.simple (100 + m)) else none)
   | k :: rest =>
     match k, parseTyChars rest with
